@@ -2,7 +2,7 @@
 # usage: mutrun.sh [ID ...]  — runs every patch of /verif/mutants/<ID>/ against check <ID> in a scratch worktree
 cd /verif
 IDS=${@:-$(ls mutants)}
-WT=/var/tmp/seedrun/wt
+WT=${WT:-/var/tmp/seedrun/wt}
 if [ ! -d $WT ]; then mkdir -p /var/tmp/seedrun; git -C /repo worktree add --detach $WT HEAD -q; fi
 for id in $IDS; do
   for p in mutants/$id/*.patch; do
